@@ -169,19 +169,20 @@ Definition cur_key (s : state) (i : nat) (nophase : bool) : option (Q * literal 
     let ck := if i_multi im then CKn comps else CK1 (nth O comps []) in
     Some (total, mklit lp (fst tp) (snd tp), ck).
 
-Inductive rd := RNone | RVal (v : Q).
+Inductive rd := RNone | RVal (v : Q) | RErr.   (* None, a value, or the property function raised *)
 
 Section Model.
 (* property-package oracles: mixture.<name>(phase, z, T, P) / mixture.<name>(z, T, P), and
-   mixture.x<name>(zip(phases, rows), T, P) *)
-Variable calc1 : nat -> nat -> option phase -> vec -> Q -> Q -> Q.
-Variable calcx : nat -> nat -> list (phase * vec) -> Q -> Q -> Q.
+   mixture.x<name>(zip(phases, rows), T, P).  They are PARTIAL: None = the function raises (a model outside its
+   validity range, a missing model); the exception propagates out of _get_property to the caller. *)
+Variable calc1 : nat -> nat -> option phase -> vec -> Q -> Q -> option Q.
+Variable calcx : nat -> nat -> list (phase * vec) -> Q -> Q -> option Q.
 Variable shared_key : bool.
 (* Chemical.V of chemical j: molar volume (phase, T, P) *)
 Variable cvol : nat -> phase -> Q -> Q -> Q.
 
 (* the value the mixture computes for a given literal and composition *)
-Definition value_at (pkg name : nat) (lit : literal) (ck : compkey) : Q :=
+Definition value_at (pkg name : nat) (lit : literal) (ck : compkey) : option Q :=
   match l_ph lit, ck with
   | LNo, CK1 z => calc1 pkg name None z (l_T lit) (l_P lit)
   | LNo, CKn zs => calc1 pkg name None (vsum_rows zs) (l_T lit) (l_P lit)
@@ -207,10 +208,18 @@ Definition get_property (w : world) (i name : nat) (flow nophase : bool) : world
       | Some v => (w, out_val flow total v)
       | None =>
           let m1 := if hit then m else [] in                       (* property_cache.clear() *)
-          let v := value_at (c_pkg co) name lit ck in
-          let c1 := mkcs (cobjs c) (upd (keys c) (c_k co) (Some (lit, ck)))
-                         (upd (memos c) (c_m co) (mset m1 name v)) in
-          (mkw s c1, out_val flow total v)
+          (* the key is updated BEFORE the calculation: when it raises, the key describes the new state and the
+             dict is what the clear left (empty on a miss, untouched on a hit without the name) *)
+          match value_at (c_pkg co) name lit ck with
+          | Some v =>
+              let c1 := mkcs (cobjs c) (upd (keys c) (c_k co) (Some (lit, ck)))
+                             (upd (memos c) (c_m co) (mset m1 name v)) in
+              (mkw s c1, out_val flow total v)
+          | None =>
+              let c1 := mkcs (cobjs c) (upd (keys c) (c_k co) (Some (lit, ck)))
+                             (upd (memos c) (c_m co) m1) in
+              (mkw s c1, RErr)
+          end
       end
   end.
 
@@ -218,7 +227,11 @@ Definition get_property (w : world) (i name : nat) (flow nophase : bool) : world
 Definition spec_read (w : world) (i name : nat) (flow nophase : bool) : rd :=
   match cur_key (w_st w) i nophase with
   | None => if flow then RVal 0 else RNone
-  | Some (total, lit, ck) => out_val flow total (value_at (c_pkg (cobj_of (w_cs w) i)) name lit ck)
+  | Some (total, lit, ck) =>
+      match value_at (c_pkg (cobj_of (w_cs w) i)) name lit ck with
+      | Some v => out_val flow total v
+      | None => RErr
+      end
   end.
 
 (* ---------- cache-side primitives ---------- *)
@@ -546,8 +559,13 @@ Fixpoint find_view (p : phase) (l : list (phase * nat)) : option nat :=
   end.
 
 (* sum([i.H for i in streams], Q): one memo read per source, in order *)
-Fixpoint read_all (w : world) (l : list nat) : world :=
-  match l with [] => w | j :: t => read_all (fst (get_property w j O true false)) t end.
+(* the sum stops at the first inlet whose H raises; the flag tells whether all reads returned *)
+Fixpoint read_all (w : world) (l : list nat) : world * bool :=
+  match l with
+  | [] => (w, true)
+  | j :: t => let (w1, r) := get_property w j O true false in
+              match r with RErr => (w1, false) | _ => read_all w1 t end
+  end.
 
 (* object indices an operation mentions *)
 Definition op_objs (o : op) : list nat :=
@@ -576,7 +594,9 @@ Definition step_valid (w : world) (o : op) : world * obs :=
         end in
       let (s3, n) := new_obj s2 (mkobj ir tr [] (match flows with [_] => false | _ => true end)) in
       (mkw s3 (new_cobj_fresh c pkg), BIdx n)
-  | ORead i name flow nophase => let (w1, r) := get_property w i name flow nophase in (w1, BVal r)
+  | ORead i name flow nophase =>
+      let (w1, r) := get_property w i name flow nophase in
+      (w1, match r with RErr => BErr ERuntime | _ => BVal r end)       (* the caller catches the exception *)
   | ORVol i => let (s1, v) := read_vol s i in (mkw s1 c, BVec v)
   | OSetT i T => lift w (set_T s i T)
   | OSetP i P => lift w (set_P s i P)
@@ -601,8 +621,9 @@ Definition step_valid (w : world) (o : op) : world * obs :=
   | OMix i srcs energy Tnew =>
       (* srcs: the non-empty single-phase inlets, at least two (resolved by the harness) *)
       (* energy balance: H = sum([i.H for i in streams], Q) is read first (one memo read per inlet) *)
-      let w := if energy then read_all w srcs else w in
+      let (w, allok) := if energy then read_all w srcs else (w, true) in
       let c := w_cs w in
+      if negb allok then (w, BErr ERuntime) else                  (* an inlet's H raised: nothing was mixed *)
       let P := fold_right (fun j m => Qmin m (snd (tc_of s (o_tc (obj_of s j)))))
                           (snd (tc_of s (o_tc (obj_of s (hd O srcs))))) srcs in
       let s1 := fst (set_P s i P) in
@@ -691,7 +712,7 @@ End Model.
 
 (* ---------- comparison helpers for the correspondence files ---------- *)
 Definition rd_eqb (a b : rd) : bool :=
-  match a, b with RNone, RNone => true | RVal x, RVal y => qapproxb x y | _, _ => false end.
+  match a, b with RNone, RNone => true | RVal x, RVal y => qapproxb x y | RErr, RErr => true | _, _ => false end.
 Definition obs_eqb (a b : obs) : bool :=
   match a, b with
   | BOk, BOk => true
@@ -743,17 +764,21 @@ Definition snap_eqb (a b : snap) : bool :=
 Definition stub_w (name : nat) : Q :=
   nth name [1; 1#2; 2; 1#4; 4; 1#8; 8; 1#16; 16] 1.
 Definition stub_a (pkg : nat) : vec := if Nat.eqb pkg O then [8; 16; 32] else [24; 40; 4].
-Definition stub_calc1 (pkg name : nat) (p : option phase) (z : vec) (T P : Q) : Q :=
+(* kappa and mu are "outside their validity range" at T = 384 K: the stub raises there *)
+Definition stub_raises (name : nat) (T : Q) : bool := (Nat.eqb name 4 || Nat.eqb name 5) && Qeq_bool T 384.
+Definition stub_calc1 (pkg name : nat) (p : option phase) (z : vec) (T P : Q) : option Q :=
+  if stub_raises name T then None else Some (
   stub_w name * (inject_Z (Z.of_nat (3 * (name + 1) + 7 * pkg)%nat)
                  + match p with None => 0 | Some q => inject_Z (Z.of_nat (5 * (q + 1))%nat) end
                  (* the composition weight depends on the phase, so that the multi-phase value is sensitive to how the
                     material is distributed over the phases and not only to the overall composition *)
                  + match p with None => 1 | Some q => 1 + inject_Z (Z.of_nat (q + 1)%nat) / 2 end * vdot (stub_a pkg) z
-                 + T / 64 + P / 16384).
+                 + T / 64 + P / 16384)).
 Definition stub_cvol (j : nat) (p : phase) (T P : Q) : Q :=
   inject_Z (Z.of_nat (j + 1 + 4 * (p + 1))%nat) / 1024 + T / 4194304.
-Definition stub_calcx (pkg name : nat) (l : list (phase * vec)) (T P : Q) : Q :=
-  fold_right Qplus 0 (map (fun pz => stub_calc1 pkg name (Some (fst pz)) (snd pz) T P) l).
+Definition stub_calcx (pkg name : nat) (l : list (phase * vec)) (T P : Q) : option Q :=
+  fold_right (fun a acc => match a, acc with Some x, Some y => Some (x + y) | _, _ => None end) (Some 0)
+             (map (fun pz => stub_calc1 pkg name (Some (fst pz)) (snd pz) T P) l).
 
 Definition run_eqb (shared : bool) (ops : list op) (expect : list obs) (final : list snap) : bool :=
   let (w, bs) := run stub_calc1 stub_calcx shared stub_cvol w0 ops in
